@@ -120,6 +120,52 @@ def allocation_matrix(sl):
         pass
 
 
+def driver_steps(sl):
+    """the real Driver.start_benchmark walks exactly one step per schedule element and has a progress entry for each"""
+    from harness import actors
+
+    schedule = [build_element(i, sl) for i in range(len(sl["shape"]))]
+    s = actors.build_driver(schedule, cores=concrete(fresh_int("cores", 1, 3)))
+    s.D.quiet = False
+    printed = []
+
+    class Progress:
+        def print(self, msg, progress):
+            printed.append(msg)
+
+        def finish(self):
+            pass
+
+    s.D.progress_reporter = Progress()
+    try:
+        s.fire(s.enabled()[0])  # StartBenchmark -> Driver.start_benchmark
+    except Exception as e:  # noqa: BLE001
+        core.note("start_benchmark raised", repr(e))
+        observe("the driver can start every schedule", False)
+        return
+    D = s.D
+    failures = [m for q in s.chan.values() for _, m in q if type(m).__name__ == "BenchmarkFailure"]
+    observe("the driver can start every schedule", not failures)
+    core.trace("steps", D.number_of_steps)
+    observe("the race walks exactly one step per schedule element", D.number_of_steps == len(schedule))
+    observe("one progress entry per step", len(D.tasks_per_join_point) == D.number_of_steps)
+    for step in range(D.number_of_steps):
+        D.current_step = step
+        try:
+            D.update_progress_message()
+            ok = True
+        except Exception as e:  # noqa: BLE001
+            core.note("update_progress_message raised at step %d" % step, repr(e))
+            ok = False
+        observe("progress can be reported for every step the race walks through", ok)
+        if ok and step < len(D.tasks_per_join_point):
+            names = sorted(t.name for t in schedule[step])
+            observe("the progress message names the tasks of that step", printed and all(n in printed[-1] for n in names))
+    clients = sorted(c for cs in D.clients_per_worker for c in [cs])
+    observe("every client is assigned to exactly one worker", clients == list(range(max([1] + [e.clients for e in schedule]))))
+    observe("workers are created only for non-empty client sets", len(D.workers) == len(set(D.clients_per_worker.values())))
+
+
 def worker_assignments(sl):
     nh = sl["hosts"]
     hosts = [{"host": "h%d" % i, "cores": concrete(fresh_int("cores%d" % i, 1, sl["max_cores"]))} for i in range(nh)]
@@ -180,6 +226,12 @@ HARNESSES = [
                     "full family": "task with 1..4 (5) clients | empty parallel | parallel of 1..3 (4) sub-tasks x 1..3 (4) clients, cap none/1/2/5, completed-by none/any/first/last",
                     "small family": "task with 1..4 clients | empty parallel | parallel of 2 sub-tasks x 1..2 clients, cap none/1"},
             doc="rectangular matrix, aligned join points, exactly-once client indices, steps == progress entries"),
+    Harness("driver_steps", driver_steps, "bounded-exhaustive",
+            lambda tier: [sl for sl in _alloc_slices(tier) if len(sl["shape"]) <= 2 and not (len(sl["shape"]) == 2 and sl["shape"][0][2] + sl["shape"][1][2] > 3)],
+            reads=READS + [driver.Driver.start_benchmark, driver.Driver.update_progress_message],
+            stubs=["fake actor runtime, metrics store / telemetry stubs (the Driver's coordination logic is real)"],
+            bounds={"schedules": "the 1- and 2-element families of allocation_matrix", "cores": "1..3"},
+            doc="Driver.start_benchmark: steps == schedule elements == progress entries; progress message defined for every step"),
     Harness("worker_assignments", worker_assignments, "bounded-exhaustive", _host_slices, reads=READS,
             bounds={"hosts": "1..4", "cores per host": "1..4", "clients": "1..16 quick / 1..32 thorough"},
             doc="exact contiguous partition of client ids, <=1 worker per core, balanced workers"),
